@@ -12,13 +12,16 @@ RULE = ('one seeded chart spec and event history is executed under a drawn subse
         'inits in order) and the sequence of resting states are identical in every configuration and equal to the '
         'reference model; a configuration that raises where another does not is a violation. Non-trivial = a compared '
         'configuration pair whose history contains a transition; distinct = distinct (configuration, topology class, '
-        'init depth) tuples.')
+        'init depth) tuples.  Third stratum: queued charts driven with a backlog (posts, next_rtc, complete_circuit) under the 16 flag combinations of the queued host.')
 ASSUMPTIONS = ['no schedule dimension; in the active-object hosts the client waits for the object to be idle between events']
 PROBES = ['live_output_with_concurrent_posters']
 PLAN = {
-  'quick': {'strata': {'configs': 1500, 'threaded': 500}, 'wall_s': 300, 'chunk': 25, 'min_conclusive': 300},
-  'thorough': {'strata': {'configs': 40000, 'threaded': 15000}, 'wall_s': 900, 'chunk': 100, 'min_conclusive': 300},
+  'quick': {'strata': {'configs': 1500, 'threaded': 500, 'queued-backlog': 700}, 'wall_s': 300, 'chunk': 25, 'min_conclusive': 300},
+  'thorough': {'strata': {'configs': 40000, 'threaded': 15000, 'queued-backlog': 20000}, 'wall_s': 900, 'chunk': 100, 'min_conclusive': 300},
 }
+# queued charts driven with a backlog (post, post, ..., next_rtc / complete_circuit): the flags of the queued host
+QUEUED_CONFIGS = [{'host': 'queued', 'build': 'closure-spied' if sp else 'closure', 'instrumented': fl, 'live_spy': ls, 'live_trace': lt}
+                  for sp in (False, True) for fl in (False, True) for ls in (False, True) for lt in (False, True)]
 THREADED_CONFIGS = [{'spied': sp, 'instrumented': fl, 'live_spy': ls, 'live_trace': lt}
                     for sp in (False, True) for fl in (True, False) for ls in (False, True) for lt in (False, True)]
 
@@ -63,6 +66,13 @@ def generate(seed, stratum, tier):
   rng = random.Random(seed)
   if stratum == 'threaded':
     return generate_threaded(rng)
+  if stratum == 'queued-backlog':
+    kw = {'fx_rate': rng.choice([0.0, 0.2]), 'fx_ops': ('post_fifo', 'post_lifo'), 'nstates': rng.randrange(2, 9)}
+    sc = cc.gen_chart_scenario(rng, combos=[('queued', 'closure')], nops=(5, 30), spec_kw=kw, flags=False,
+                               ops=('post_fifo', 'post_lifo', 'rtc', 'circuit', 'ev'), weights=(5, 2, 3, 2, 1))
+    sc['configs'] = [0] + sorted(rng.sample(range(1, len(QUEUED_CONFIGS)), 5 if tier == 'quick' else 9))
+    sc['config_set'] = 'queued'
+    return sc
   sc = cc.gen_chart_scenario(rng, combos=[('plain', 'closure')], nops=(4, 25), ops=('ev', 'is_in', 'child'), weights=(8, 1, 1))
   k = 6 if tier == 'quick' else 10
   picks = rng.sample(range(1, len(CONFIGS)), k)
@@ -169,8 +179,9 @@ def execute(sc, sched):
   base_res = None
   base_beh = None
   total = None
+  table = QUEUED_CONFIGS if sc.get('config_set') == 'queued' else CONFIGS
   for ci in sc['configs']:
-    cfg = CONFIGS[ci]
+    cfg = table[ci]
     sc2 = dict(sc)
     sc2.update(cfg)
     r = cc.run_and_judge(sc2, sched, [lambda run, res: co.check_transitions(run, res, want=('C01', 'C02')), co.check_start],
@@ -208,7 +219,7 @@ def execute(sc, sched):
       while k < min(len(beh), len(base_beh)) and beh[k] == base_beh[k]:
         k += 1
       total.violate('config-differs', {'host': cfg['host'], 'spied': spied},
-                    'configuration %s behaves differently from plain/closure at step %d:\n baseline %s\n this     %s' % (
+                    'configuration %s behaves differently from the un-instrumented baseline (first configuration) at step %d:\n baseline %s\n this     %s' % (
                       cfg_name(cfg), k, base_beh[k] if k < len(base_beh) else None, beh[k] if k < len(beh) else None))
       return total
   return total
